@@ -135,6 +135,16 @@ def o_roundtrip(case):
             series.append(dict(grid=(X, Y, Z), conc=conc_a, flx=flx_a, tower_name=n, timestamp=ts,
                                params=dict(ustar=None if z0f else float(rng.uniform(0.1, 1)), mol=float(rng.normal() * 100), wind_speed=float(rng.uniform(1, 9)),
                                            wind_dir=float(rng.uniform(0, 360)), **({"z0": 0.07} if z0f else {}))))
+        if case.get("np_params") and k == 0:
+            # met series that came out of numpy arrays / data frames: the per-step values are numpy scalars of various types, 0-d
+            # arrays or Python ints - still the same NUMBERS (all exactly representable, so that the stored float64 is equal)
+            for t in range(ns):
+                pr = series[t]["params"]
+                pr["mol"] = [np.float32(-128.5), np.float64(250.25), np.array(64.0), int(-300)][(t + case["seed"]) % 4]
+                pr["wind_speed"] = [np.array(3.5), np.float32(2.25), int(4), np.int64(6)][(t + case["seed"]) % 4]
+                pr["wind_dir"] = [np.int64(280), int(45), np.float32(112.5), np.array(7.0)][(t + case["seed"]) % 4]
+                if not z0f:
+                    pr["ustar"] = [np.float32(0.375), np.float64(0.5), np.array(0.25), np.float32(0.75)][(t + case["seed"]) % 4]
         if case.get("dup_ts") and case["str_ts"] and k == 0 and ns >= 2:
             # a repeated label (the hour that occurs twice when daylight saving ends): arrays stay where they were put
             series[ns - 1]["timestamp"] = series[0]["timestamp"]
@@ -189,8 +199,8 @@ def o_roundtrip(case):
             if p[key] is None:
                 if not np.isnan(got):
                     return fail("C18/met-none", "%s of a roughness-length forcing is not stored as missing" % var, None, "NaN", float(got), 0)
-            elif got != p[key]:
-                return fail("C18/met", "per-step %s not preserved" % var, None, p[key], float(got), 0)
+            elif not got == float(p[key]):
+                return fail("C18/met", "per-step %s not preserved (saved %r of type %s)" % (var, p[key], type(p[key]).__name__), None, float(p[key]), float(got), 0)
     return None
 
 
@@ -218,9 +228,9 @@ def run(rng, tier, deep):
                     continue
                 run_oracle(st, o_roundtrip, dict(towers=nt, steps=ns, three_d=three_d, seed=int(rng.integers(1 << 30)),
                                                  str_ts=bool(rng.random() < 0.5), z0_forcing=bool(rng.random() < 0.4),
-                                                 mixed_dtype=bool(rng.random() < 0.5), dup_ts=bool(rng.random() < 0.35),
+                                                 mixed_dtype=bool(rng.random() < 0.5), dup_ts=bool(rng.random() < 0.35), np_params=bool(rng.random() < 0.4),
                                                  z_order=[int(v) for v in rng.permutation(3)] if (three_d and rng.random() < 0.6) else None))
     return finish(st, "result sets over towers 1..4 x steps 1..4 x 2-D/3-D, values from adversarial float64 bit patterns (+-0, denormals, +-1e308, the default "
-                  "netCDF fill value, negatives), string and integer timestamps (incl. a repeated label), ustar or z0 forcing, result sets mixing float32 and float64 entries, 3-D outputs whose levels are not listed bottom-up; correspondence: which (tower, step) every dataset cell, label "
+                  "netCDF fill value, negatives), string and integer timestamps (incl. a repeated label), ustar or z0 forcing, per-step met values given as Python floats / ints / numpy scalars / 0-d arrays, result sets mixing float32 and float64 entries, 3-D outputs whose levels are not listed bottom-up; correspondence: which (tower, step) every dataset cell, label "
                   "and metadata slot holds, vs the Lean assembly model; oracle: bit-identical arrays, ds.sel by name and label, coordinates, metadata, NaN for "
                   "missing ustar", deep, 0)
